@@ -197,7 +197,7 @@ def rand_case(rng):
 
 
 def gen(ctx):
-    cs = table() + pv.cross_kind_cases() + pv.back_to_back_cases()
+    cs = table() + pv.cross_kind_cases() + pv.back_to_back_cases() + pv.raw_chunk_cases() + pv.pad_boundary_cases()
     n = 600 if ctx.tier == "quick" else 12000
     cs += [rand_case(ctx.rng) for _ in range(n)]
     return cs
